@@ -240,7 +240,7 @@ struct C16 : vf::Engine {
             S.sys.realizeModel(s);
             std::vector<long> throwAts; std::vector<int> throwStages; for (auto& f : p.faults) if (f.kind == "throw") { throwAts.push_back(std::max(1L, f.num("at", 1))); int st = (int)f.num("stage", 7); throwStages.push_back(st == 3 || st == 5 || st == 6 ? st : 7); }
             size_t nextThrow = 0; if (!throwAts.empty()) { S.tc.throwAt = throwAts[0]; S.tc.stage = throwStages[0]; }
-            bool needTouch = false;      // a realization failed and the client has not changed anything yet
+            bool needTouch = false; int failedStage = 7;      // a realization failed (in that stage's code) and the client has not changed anything yet
             // realizations the harness itself needs inside an operation never fail (only 'realize' operations are fault targets)
             auto qr = [&](Stage g) { long sv = S.tc.throwAt; S.tc.throwAt = -1; try { S.sys.realize(s, g); } catch (...) { S.tc.throwAt = sv; throw; } S.tc.throwAt = sv; };
             auto S_ = [](double v) { char b[40]; std::snprintf(b, sizeof b, "%.17g", v); return std::string(b); };
@@ -282,7 +282,11 @@ struct C16 : vf::Engine {
                 auto modified = [&](const std::string& what) { lastMod = what; ++mods; needTouch = false; };
                 // after a failed realization the client changes some variable before it realizes or queries again; if the plan's next
                 // operation is not itself a modification, time is nudged (which invalidates every stage the failure may have left uneven)
-                if (needTouch && (op.kind == "realize" || op.kind == "query" || op.kind == "check" || op.kind == "copy" || op.kind == "euler" || op.kind == "meas" || op.kind == "param" || op.kind == "cparam")) { s.setTime(s.getTime() + 0.03125); modified("time (after a failed realization)"); }
+                // (a setter called with the value the variable already has may change nothing; after a failure in the force-accumulation
+                // stage only operations that certainly write a variable count as the client's change)
+                const bool certainWrite = op.kind == "sett" || op.kind == "setq" || op.kind == "setq1" || op.kind == "setu";
+                const bool anyModification = certainWrite || op.kind == "enable" || op.kind == "cenable" || op.kind == "menable" || op.kind == "lock" || op.kind == "grav";
+                if (needTouch && !(failedStage == 7 ? certainWrite : anyModification)) { s.setTime(s.getTime() + 0.03125); modified("time (after a failed realization)"); }
                 if (op.kind == "sett") { s.setTime(s.getTime() + 0.37); modified("time"); }
                 else if (op.kind == "setq") { Rng r((uint64_t)op.num("seed", 1)); Vector q(nq); for (int i = 0; i < nq; ++i) q[i] = r.uni(-1.2, 1.2); s.updQ() = q; modified("q"); }
                 else if (op.kind == "setq1") { MobilizedBody& m = S.mob[1 + op.num("i", 0) % nb]; m.setOneQ(s, 0, m.getOneQ(s, 0) + 0.31); modified("q(one coordinate via MobilizedBody::setOneQ)"); }
@@ -328,9 +332,10 @@ struct C16 : vf::Engine {
                         if (S.tc.fired == 0 || S.tc.throwAt < 0) throw;
                         // failed realization: as every client of the library does, change a state variable before going on
                         if (s.getSystemStage() >= Stage::Position) ++probeThrowAdvanced;
+                        const int failedAt = S.tc.stage;
                         res.count("fault_realize_throw"); res.count(std::string("fault_realize_throw_at_stage_") + std::to_string(S.tc.stage));
                         S.tc.calls = 0; ++nextThrow; S.tc.throwAt = nextThrow < throwAts.size() ? throwAts[nextThrow] : -1; if (nextThrow < throwStages.size()) S.tc.stage = throwStages[nextThrow]; S.tc.fired = 0;
-                        if ((opn * 13 + (int)nextThrow) % 2 == 0) { needTouch = true; continue; }      // the plan's next operation is the client's change (or time is nudged, see above)
+                        if ((opn * 13 + (int)nextThrow) % 2 == 0) { needTouch = true; failedStage = failedAt; continue; }      // the plan's next operation is the client's change (or time is nudged, see above)
                         // ... which variable is up to the client: a speed, the time, a coordinate or a force parameter
                         switch ((opn * 31 + (int)nextThrow * 7) % 4) {
                         case 0: { s.setTime(s.getTime() + 0.0625); modified("time (after a failed realization)"); break; }
